@@ -45,6 +45,10 @@ type c41Srv struct {
 	Rules           map[string]c41Rule // by SNI, "" = default rule
 	Poodle          bool
 	TicketsDisabled bool
+	Sslv2           bool // EnableSslv2ClientHello (bfe.conf default: on)
+	// Reloads: how many session-ticket-key reloads the configuration went through before serving,
+	// each done like bfe_server's HttpsListener.UpdateSessionTicketKey: Clone(), set key (name)
+	Reloads int
 }
 
 type c41Cli struct {
@@ -127,6 +131,13 @@ func (s *c41Srv) build() *bfe_tls.Config {
 			}
 		}
 		cfg.ServerRule = sr
+	}
+	cfg.EnableSslv2ClientHello = s.Sslv2
+	for i := 0; i < s.Reloads; i++ {
+		c2 := cfg.Clone()
+		c2.SessionTicketKey[0] ^= byte(i + 1)
+		c2.SessionTicketKeyName[0] = byte(i + 1)
+		cfg = c2
 	}
 	return cfg
 }
@@ -416,6 +427,12 @@ func c41CheckNeg(tb ev.TB, rec *ev.Rec, s *c41Srv, c *c41Cli, dataLen int) {
 	if c.Cache {
 		classes = append(classes, "neg/with-session-cache")
 	}
+	if s.Reloads > 0 {
+		classes = append(classes, "neg/config-after-ticket-key-reload")
+		if s.Min > vSSL30 {
+			classes = append(classes, "neg/config-after-ticket-key-reload/non-default-min")
+		}
+	}
 	rec.Case(string(fpb), nt, classes...)
 	w := map[string]any{"kind": "neg", "server": s, "client": c}
 	rec.Sample(w)
@@ -579,6 +596,7 @@ type c41Scsv struct {
 	Suites    []uint16
 	SNI       string
 	Resume    bool // present a valid ticket of an earlier session at HelloVers
+	V2        bool // SSLv2-compatible hello framing (no extensions)
 }
 
 func c41CheckScsv(tb ev.TB, rec *ev.Rec, k *c41Scsv) {
@@ -604,7 +622,17 @@ func c41CheckScsv(tb ev.TB, rec *ev.Rec, k *c41Scsv) {
 	rec.Sample(w)
 
 	srvCfg := s.build()
-	h := &rawHello{Vers: k.HelloVers, SNI: k.SNI, Curves: []uint16{23, 24, 25}}
+	h := &rawHello{Vers: k.HelloVers, SNI: k.SNI, Curves: []uint16{23, 24, 25}, SSLv2: k.V2}
+	modelSNI, modelCurves := k.SNI, []uint16{23, 24, 25}
+	if k.V2 {
+		// no extensions in this framing: no server name, no ticket; a client without the EC
+		// extensions is taken to support P-256 uncompressed above SSLv3 (RFC 4492 section 4)
+		modelSNI, modelCurves = "", nil
+		if k.HelloVers > vSSL30 {
+			modelCurves = []uint16{23}
+		}
+		rec.Class("scsv/sslv2-framing")
+	}
 	h.Suites = append(h.Suites, k.Suites...)
 	if k.SCSV {
 		if k.ScsvFirst {
@@ -614,7 +642,7 @@ func c41CheckScsv(tb ev.TB, rec *ev.Rec, k *c41Scsv) {
 		}
 	}
 	haveTicket := false
-	if k.Resume && k.HelloVers >= vTLS10 && k.HelloVers <= vTLS12 {
+	if k.Resume && !k.V2 && k.HelloVers >= vTLS10 && k.HelloVers <= vTLS12 {
 		// obtain a genuine ticket with a std client limited to HelloVers
 		cache := &capCache{}
 		cli := &c41Cli{Min: k.HelloVers, Max: k.HelloVers, Suites: k.Suites, SNI: k.SNI}
@@ -639,7 +667,10 @@ func c41CheckScsv(tb ev.TB, rec *ev.Rec, k *c41Scsv) {
 		rec.Excluded("watchdog")
 		return
 	}
-	exp := c41Model(s, 0, k.HelloVers, k.Suites, []uint16{23, 24, 25}, k.SNI)
+	exp := c41Model(s, 0, k.HelloVers, k.Suites, modelCurves, modelSNI)
+	if k.V2 && !s.Sslv2 {
+		exp.ok, exp.why = false, "sslv2-hello-disabled"
+	}
 	switch ff.Kind {
 	case "alert":
 		rec.Class(fmt.Sprintf("scsv/answer=alert-%d", ff.Alert))
@@ -789,6 +820,8 @@ func drawSrv(rt *rapid.T) *c41Srv {
 	}
 	s.Poodle = rapid.Bool().Draw(rt, "poodle")
 	s.TicketsDisabled = rapid.IntRange(0, 4).Draw(rt, "noticket") == 0
+	s.Sslv2 = rapid.IntRange(0, 3).Draw(rt, "sslv2hello") > 0
+	s.Reloads = rapid.SampledFrom([]int{0, 0, 1, 2}).Draw(rt, "reloads")
 	return s
 }
 
@@ -831,6 +864,13 @@ func drawScsv(rt *rapid.T) *c41Scsv {
 	k.Suites = drawSubset16(rt, c41SrvSuiteIDs[:len(c41SrvSuiteIDs)-1], 1, "hellosuites")
 	k.SNI = rapid.SampledFrom(c41SNIs).Draw(rt, "sni")
 	k.Resume = rapid.IntRange(0, 5).Draw(rt, "resume") == 0
+	k.V2 = rapid.IntRange(0, 3).Draw(rt, "v2framing") == 0
+	if k.V2 {
+		k.Resume = false
+		if len(k.Srv.Curves) > 0 && !contains16(k.Srv.Curves, 23) {
+			k.Srv.Curves = nil // keep the server able to use the P-256 it assumes for an extension-less client
+		}
+	}
 	return k
 }
 
@@ -852,6 +892,11 @@ func TestC41(t *testing.T) {
 					k := &c41Scsv{Srv: c41Srv{Cert: "rsa", Max: max}, HelloVers: hv, SCSV: scsv,
 						Suites: []uint16{0xc02f, 0xc013, 0x002f, 0x0005}, Resume: resume}
 					c41CheckScsv(t, rec, k)
+					if !resume { // the same hello in SSLv2-compatible framing
+						k2 := *k
+						k2.V2, k2.Srv.Sslv2 = true, true
+						c41CheckScsv(t, rec, &k2)
+					}
 				}
 			}
 		}
@@ -874,6 +919,16 @@ func TestC41(t *testing.T) {
 			srv := &c41Srv{Cert: "rsa", HasRules: true, Rules: map[string]c41Rule{"": {Grade: "C", Dyn: true}}}
 			cli := &c41Cli{Min: vTLS10, Max: vTLS12, Suites: []uint16{suite}, SNI2: "=", Warm: 1<<20 + 100, Tail: tail}
 			c41CheckNeg(t, rec, srv, cli, 500)
+		}
+	}
+	// deterministic: the version range must survive ticket-key reloads (Clone + UpdateListener path)
+	for _, reloads := range []int{0, 1, 3} {
+		for _, min := range []uint16{vTLS11, vTLS12} {
+			for _, cmax := range []uint16{vTLS10, vTLS11, vTLS12} {
+				srv := &c41Srv{Cert: "rsa", Min: min, Max: vTLS12, Reloads: reloads}
+				cli := &c41Cli{Min: vTLS10, Max: cmax, Suites: []uint16{0xc013, 0x002f}, SNI2: "="}
+				c41CheckNeg(t, rec, srv, cli, 300)
+			}
 		}
 	}
 	rapid.Check(t, func(rt *rapid.T) {
